@@ -283,56 +283,63 @@ impl<'a> Eqc<'a> {
 
     /// containers beyond the 32- / 64-slot marks: b is a permutation of a, or differs from it in ONE value or
     /// ONE key that sits in a high slot of one of the two
-    pub fn big_pairs<const N: usize, const M: usize>(&mut self, cases: u64) {
+    pub fn big_pairs<F: Fam, const N: usize, const M: usize>(&mut self, cases: u64) {
         for i in 0..cases {
             let mut rng: Rng = self.cx.hist_rng(6_000_000 + i * self.cx.shard.1 + self.cx.shard.0 + (N * 1000 + M) as u64);
+            ledger::reset();
             ledger::set_ctx(self.group, i as u32, "map==(big)");
             let len = N.min(M) - rng.usize_below(3).min(N.min(M));
             let mut keys: Vec<u32> = (1..=(len as u32 + 5)).collect();
             rng.shuffle(&mut keys);
+            // a class neither operand holds otherwise
+            let spare = keys[len];
             keys.truncate(len);
-            let mut a: Map<u32, u32, N> = Map::new();
+            // equal keys of the two operands are different objects with different tags (different bits)
+            let mut a: Map<F::K, F::V, N> = Map::new();
             for k in &keys {
-                a.insert(*k, k * 7);
+                a.insert(F::K::mk(*k, 1), F::V::mk(k * 7));
             }
             let mut kb = keys.clone();
             rng.shuffle(&mut kb);
             let mode = rng.below(4);
             // the entry that differs sits near the END of a's slot order (a high slot)
-            let victim = keys[len - 1 - rng.usize_below(len.min(4))];
-            let mut b: Map<u32, u32, M> = Map::new();
-            let mut sb: Set<u32, M> = Set::new();
-            let mut sa: Set<u32, N> = Set::new();
+            let victim = if len > 0 { keys[len - 1 - rng.usize_below(len.min(4))] } else { 0 };
+            let mut b: Map<F::K, F::V, M> = Map::new();
+            let mut sb: Set<F::K, M> = Set::new();
+            let mut sa: Set<F::K, N> = Set::new();
             for k in &keys {
-                sa.insert(*k);
+                sa.insert(F::K::mk(*k, 1));
             }
             for k in &kb {
                 let (kk, vv) = match mode {
                     1 if *k == victim => (*k, k * 7 + 1),
-                    2 if *k == victim => (100_000 + *k, k * 7),
+                    2 if *k == victim => (spare, k * 7),
                     _ => (*k, k * 7),
                 };
-                b.insert(kk, vv);
-                sb.insert(kk);
+                b.insert(F::K::mk(kk, 2), F::V::mk(vv));
+                sb.insert(F::K::mk(kk, 2));
             }
             if mode == 3 && len > 0 {
-                b.remove(&victim);
-                sb.remove(&victim);
+                let probe = F::K::mk(victim, 3);
+                b.remove::<F::K>(&probe);
+                sb.remove::<F::K>(&probe);
             }
             let want = mode == 0 || len == 0;
             let want_set = mode == 0 || mode == 1 || len == 0;
             self.cx.rep.evaluations += 1;
             let got = [a == b, b == a, !(a != b), !(b != a)];
             if got.iter().any(|g| *g != want) {
-                v("wrong-answer", format!("Map<u32,u32,{}> with {} entries vs Map<u32,u32,{}> ({}): [a==b, b==a, !(a!=b), !(b!=a)] = {:?}, extensionally {}", N, len, M, ["a permutation of it", "one value differs (key in a high slot)", "one key differs (high slot)", "one entry missing"][mode as usize], got, want));
+                v("wrong-answer", format!("Map<{},_,{}> with {} entries vs Map<_,_,{}> ({}): [a==b, b==a, !(a!=b), !(b!=a)] = {:?}, extensionally {}", F::NAME, N, len, M, ["a permutation of it", "one value differs (key in a high slot)", "one key differs (high slot)", "one entry missing"][mode as usize], got, want));
             }
             let gots = [sa == sb, sb == sa, !(sa != sb)];
             if gots.iter().any(|g| *g != want_set) {
-                v("wrong-answer", format!("Set<u32,{}> with {} elements vs Set<u32,{}> (mode {}): [a==b, b==a, !(a!=b)] = {:?}, extensionally {}", N, len, M, mode, gots, want_set));
+                v("wrong-answer", format!("Set<{},{}> with {} elements vs Set<_,{}> (mode {}): [a==b, b==a, !(a!=b)] = {:?}, extensionally {}", F::NAME, N, len, M, mode, gots, want_set));
             }
             self.cx.rep.hit(&format!("big-pair:{}", if want { "equal" } else { "unequal" }));
+            if !F::TRACKED { self.cx.rep.hit(&format!("big-pair:{}", F::NAME)); }
+            drop((a, b, sa, sb));
             if ledger::viol_total() > 0 {
-                self.cx.rep.absorb_violations("C14", &|| vec![format!("big pair N={} M={} len={} mode={}", N, M, len, mode)]);
+                self.cx.rep.absorb_violations("C14", &|| vec![format!("big pair fam={} N={} M={} len={} mode={}", F::NAME, N, M, len, mode)]);
             }
         }
     }
